@@ -145,6 +145,51 @@ func c19Merge(w *World, r *Report, fn *ssa.Function) {
 			unreachableUnlessAny(w, ob, ctx, entry(fn), tgt, "membership-regression/"+f, "current."+f+" can be overwritten although the update's config-change index is not larger", func(l Lit) bool { return l.Implies(newerCci) })
 		}
 	}
+	// completeness: the function cannot return without having taken the update's leader unless the
+	// update names none, or the current view has a leader and the update's term is not larger;
+	// nor without its membership unless the update's config-change index is not larger
+	noLeaderUpd := func(l Lit) bool {
+		return l.Kind == "int" && !l.IsNE && l.Terms == "upd.LeaderID" && l.Lo == 0 && l.Hi == 0
+	}
+	curHas := func(l Lit) bool {
+		return l.Kind == "int" && l.Terms == "cur.LeaderID" && ((!l.IsNE && l.Lo >= 1) || (l.IsNE && l.NE == 0))
+	}
+	notNewer := linLit(map[string]int64{"upd.Term": 1, "cur.Term": -1}, 0, token.LEQ)
+	notNewerCci := linLit(map[string]int64{"upd.ConfigChangeIndex": 1, "cur.ConfigChangeIndex": -1}, 0, token.LEQ)
+	isStoreOf := func(f string) func(ssa.Instruction) bool {
+		return func(x ssa.Instruction) bool {
+			for _, s := range stores[f] {
+				if ssa.Instruction(s) == x {
+					return true
+				}
+			}
+			return false
+		}
+	}
+	skipWalk := func(f string, preds ...func(Lit) bool) *Path {
+		return (&Walk{Barrier: isStoreOf(f), Target: isAnyReturn, EdgeOK: func(b *ssa.BasicBlock, k int) bool {
+			for _, l := range ctx.EdgeLits(b, k) {
+				for _, p := range preds {
+					if p(l) {
+						return false
+					}
+				}
+			}
+			return true
+		}}).Find(entry(fn))
+	}
+	if len(stores["LeaderID"]) > 0 {
+		if p := skipWalk("LeaderID", noLeaderUpd, func(l Lit) bool { return l.Implies(notNewer) }); p != nil {
+			ob.Violate("leader-not-taken", instrPos(p.Hit), "the merge can return without taking the update's leader although the update names one and its term is larger", w.PathString(p)...)
+		} else if p := skipWalk("LeaderID", noLeaderUpd, curHas); p != nil {
+			ob.Violate("leader-not-taken", instrPos(p.Hit), "the merge can return without taking the update's leader although the update names one and the current view has none", w.PathString(p)...)
+		}
+	}
+	if len(stores["ConfigChangeIndex"]) > 0 {
+		if p := skipWalk("ConfigChangeIndex", func(l Lit) bool { return l.Implies(notNewerCci) }); p != nil {
+			ob.Violate("membership-not-taken", instrPos(p.Hit), "the merge can return without taking the update's membership although its config-change index is larger", w.PathString(p)...)
+		}
+	}
 	// pairs travel together
 	pair := func(a, b string) {
 		isB := func(x ssa.Instruction) bool {
@@ -357,7 +402,14 @@ func c19Feeders(w *World, r *Report) {
 	callers := map[string]bool{}
 	for _, ci := range w.CallersOf(up) {
 		callers[FnName(ci.Parent())] = true
-		ob.Site(ci.Pos(), "view update called from "+FnName(ci.Parent()))
+		arg := Expr(ci.Common().Args[1])
+		ob.Site(ci.Pos(), "view update called from "+FnName(ci.Parent())+" with "+arg)
+		// the feeder hands over everything it learnt: the whole converted shard list of the node
+		// host, or the whole shard view of the decoded remote state - not a filtered copy
+		whole := (strings.Contains(arg, "toShardViewList(") && strings.HasSuffix(arg, ".ShardInfoList)")) || strings.HasSuffix(arg, ".ShardView")
+		if !whole {
+			ob.Violate("feeder-filters@"+FnName(ci.Parent()), ci.Pos(), FnName(ci.Parent())+" feeds the view with `"+arg+"`, not with the complete list it received: what it leaves out never reaches this node's view, and nodes exchanging state do not converge")
+		}
 	}
 	var names []string
 	for k := range callers {
